@@ -208,6 +208,6 @@ def replay(ctx, data):
     if it[0] == "pipelined":
         from vk.checks import c19p
 
-        return c19p.replay_item(it[1], it[2])
+        return c19p.replay_item(it[1], it[2], it[3] if len(it) > 3 else None)
     print(eval_serve(it[1], it[2], it[3]) if it[0] == "serve" else eval_substore(it[1], it[2], it[3]))
     return 0
